@@ -27,8 +27,10 @@ from .debug_database import DebugDatabase
 from .high_level_command_stream import DMA
 from .high_level_command_stream import NpuStripe
 from .numeric_util import round_away_zero
+from .numeric_util import full_shape
 from .operation import Op
 from .scaling import quantise_scale
+from .shape4d import Shape4D
 from .tensor import create_const_tensor
 from .tensor import create_equivalence_id
 from .tensor import QuantizationParameters
@@ -170,7 +172,11 @@ def convert_to_lut(op, lut_values, lut_name):
     assert ifm.dtype == ofm.dtype
     lut_tensor = create_lut_tensor(op.name + "_values", lut_values, ofm.dtype)
     op.set_activation_lut(lut_tensor)
-    op.set_ifm_ofm_shapes()
+    if op.ifm_shapes and op.ofm_shapes:
+        # Keep the shapes the op works with: the OFM tensor may carry the shape of a bypassed memory only op
+        op.ifm_shapes = [op.ifm_shapes[0], Shape4D(full_shape(4, tens.shape, 1))]
+    else:
+        op.set_ifm_ofm_shapes()
     DebugDatabase.add_optimised(op, op)
     return op
 
